@@ -228,6 +228,30 @@ def failing(trees, parse=None):
         why = oracle_check(t, out[2 * i], out[2 * i + 1])
         if why:
             bad.append((t, why))
+    # layouts with a line break before / after every binary operator outside brackets: the language need not accept
+    # them as ONE expression (the parser may stop at the line break), but when it consumes the whole text the
+    # grouping must be the documented one
+    lay = []
+    for t in trees:
+        lay.append(G.print_min_breaks(t, after=False))
+        lay.append(G.print_min_breaks(t, after=True))
+    lout = parse(lay)
+    seen = set(id(t) for t, _ in bad)
+    for i, t in enumerate(trees):
+        if id(t) in seen:
+            continue
+        for j, how in ((0, "line break before every operator"), (1, "line break after every operator")):
+            m = re.match(r"OK (\d+)/(\d+) (.*)$", lout[2 * i + j])
+            if not m or m.group(1) != m.group(2):
+                continue
+            try:
+                got = G.norm_floats(G.strip_paren_text(m.group(3)))
+            except Exception:
+                continue
+            if got != G.norm_floats(G.expected_sexp(t)):
+                bad.append((t, "%s: the whole text is accepted as one expression but parses to %s, the documented table gives %s"
+                            % (how, got, G.expected_sexp(t))))
+                break
     return bad
 
 
@@ -258,6 +282,9 @@ def search(ctx, parse=None):
     why = why[0][1] if why else bad[0][1]
     smin, sfull = G.print_min(small), G.print_full(small)
     out = (parse or run_real)([smin, sfull])
+    if "line break" in why:
+        smin = G.print_min_breaks(small, after="after every" in why)
+        out = (parse or run_real)([smin, sfull])
     return {"tree": repr(small), "source_min": smin, "source_full": sfull, "what": why,
             "expected_tree": G.expected_sexp(small), "real_min": out[0], "real_full": out[1],
             "replay_cmd": "printf '%%s\\n%%s\\n' %s %s > /tmp/c && %s expr /tmp/c"
@@ -281,6 +308,9 @@ def replay(ctx, rep):
     a = G.strip_paren_text(out[0].split(" ", 2)[2]) if out[0].startswith("OK") else out[0]
     b = G.strip_paren_text(out[1].split(" ", 2)[2]) if out[1].startswith("OK") else out[1]
     bad = a != b or a != fi.get("expected_tree", a)
+    m = re.match(r"OK (\d+)/(\d+) ", out[0])
+    if "\n" in fi["source_min"] and m and m.group(1) != m.group(2):
+        bad = False      # the line-break layout is not accepted as one expression: nothing is claimed about it
     print("replay:", "property violated" if bad else "property holds")
     return 1 if bad else 0
 
